@@ -178,6 +178,9 @@ func (s *Solver) Check(assertions []*Term, values []*Term) (Result, map[int]uint
 		}
 	}
 	start := time.Now()
+	if lem := s.st.LemmasUF(assertions...); len(lem) > 0 {
+		assertions = append(append([]*Term(nil), assertions...), lem...)
+	}
 	var sb strings.Builder
 	refs := make([]string, 0, len(assertions))
 	for _, a := range assertions {
